@@ -1,3 +1,5 @@
+import re
+
 from mindsdb_sql.parser.ast.base import ASTNode
 from mindsdb_sql.exceptions import ParsingException
 from mindsdb_sql.parser.utils import indent, kw_parameters_to_string
@@ -169,18 +171,31 @@ class Object(ASTNode):
         return self.to_tree()
 
 
+interval_unit_regex = re.compile(r'[a-zA-Z_]+')
+
+
 class Interval(Operation):
 
     def __init__(self, info):
         super().__init__(op='interval', args=[info, ])
 
     def get_string(self, *args, **kwargs):
+        from mindsdb_sql.parser.ast.select.identifier import get_reserved_words
 
         arg = self.args[0]
-        items = arg.split(' ', maxsplit=1)
-        # quote first element
-        items[0] = f"'{items[0]}'"
-        return "INTERVAL " + " ".join(items)
+        items = arg.split(' ')
+        if (
+            len(items) == 2
+            and interval_unit_regex.fullmatch(items[1])
+            and items[1].upper() not in get_reserved_words()
+        ):
+            # quantity and unit: quote first element
+            value, unit = items[0], ' ' + items[1]
+        else:
+            # anything else can only be read back as a single string
+            value, unit = arg, ''
+        value = value.replace("'", "\\'")
+        return f"INTERVAL '{value}'{unit}"
 
     def to_tree(self, *args, level=0, **kwargs):
         return self.get_string( *args, **kwargs)
